@@ -555,13 +555,122 @@ pub fn mk_env(known: BTreeSet<String>) -> Env {
     }
 }
 
+/// literals of the remaining documented patterns (ISO week, `--month-day`) and literals whose
+/// own fields are out of range: the fields that were written must not be silently dropped
+#[derive(Clone, Debug, Serialize, Deserialize)]
+pub struct EdgeLit {
+    pub kind: u8,
+    pub y: i32,
+    pub mo: u32,
+    pub d: u32,
+    pub h: u32,
+    pub mi: u32,
+    pub ww: u32,
+    pub off_h: u32,
+    pub off_m: u32,
+    pub with_time: bool,
+    pub neg: bool,
+}
+
+fn edge_strategy() -> impl Strategy<Value = EdgeLit> {
+    (0u8..5, 1600i32..2400, 1u32..=12, 1u32..=28, 0u32..24, 0u32..60, 1u32..=52, 24u32..100, 0u32..60, any::<bool>(), any::<bool>()).prop_map(
+        |(kind, y, mo, d, h, mi, ww, off_h, off_m, with_time, neg)| EdgeLit { kind, y, mo, d, h, mi, ww, off_h, off_m, with_time, neg },
+    )
+}
+
+/// (literal, acceptable instants in ns since the epoch)
+pub fn edge_literal(c: &EdgeLit) -> (String, Vec<i128>) {
+    const DAY: i128 = 86_400_000_000_000;
+    const MIN: i128 = 60_000_000_000;
+    let tod = |h: u32, mi: u32| (h as i128 * 60 + mi as i128) * MIN;
+    let sign: i128 = if c.neg { -1 } else { 1 };
+    let sg = if c.neg { "-" } else { "+" };
+    match c.kind % 5 {
+        0 => {
+            // ISO week: the week's Monday (week 1 is the one with 4 January in it)
+            let jan4 = days_from_civil(c.y as i64, 1, 4);
+            let wd = (jan4 + 3).rem_euclid(7); // Monday = 0; 1970-01-01 was a Thursday
+            let monday = jan4 - wd + 7 * (c.ww as i64 - 1);
+            if c.with_time {
+                (format!("{:04}-W{:02} {:02}:{:02}", c.y, c.ww, c.h, c.mi), vec![monday as i128 * DAY + tod(c.h, c.mi)])
+            } else {
+                (format!("{:04}-W{:02}", c.y, c.ww), vec![monday as i128 * DAY])
+            }
+        }
+        1 => {
+            // month and day of the current year (the clock is pinned in 2016)
+            let day = days_from_civil(2016, c.mo, c.d) as i128 * DAY;
+            if c.with_time {
+                (format!("--{:02}-{:02} {:02}:{:02}", c.mo, c.d, c.h, c.mi), vec![day + tod(c.h, c.mi)])
+            } else {
+                (format!("--{:02}-{:02}", c.mo, c.d), vec![day])
+            }
+        }
+        2 => {
+            // an offset of 24 h or more on the literal itself
+            let local = days_from_civil(c.y as i64, c.mo, c.d) as i128 * DAY + tod(c.h, c.mi);
+            (
+                format!("{:04}-{:02}-{:02} {:02}:{:02} {}{:02}:{:02}", c.y, c.mo, c.d, c.h, c.mi, sg, c.off_h, c.off_m),
+                vec![local - sign * tod(c.off_h, c.off_m)],
+            )
+        }
+        3 => {
+            // minute 60
+            let local = days_from_civil(c.y as i64, c.mo, c.d) as i128 * DAY + tod(c.h, 60);
+            (format!("{:04}-{:02}-{:02} {:02}:60", c.y, c.mo, c.d, c.h), vec![local])
+        }
+        _ => {
+            // compact offset whose minute part is 60..99
+            let m = 60 + c.off_m % 40;
+            let hh = c.off_h % 24;
+            let local = days_from_civil(c.y as i64, c.mo, c.d) as i128 * DAY + tod(c.h, c.mi);
+            (
+                format!("{:04}-{:02}-{:02} {:02}:{:02} {}{:02}{:02}", c.y, c.mo, c.d, c.h, c.mi, sg, hh, m),
+                vec![local - sign * tod(hh, m)],
+            )
+        }
+    }
+}
+
+pub fn check_edge(env: &Env, c: &EdgeLit, st: &mut Stats) -> CaseResult {
+    let (lit, accepted) = edge_literal(c);
+    let text = format!("#{}#", lit);
+    st.eval();
+    st.class(["edge_iso_week", "edge_month_day_without_year", "edge_literal_offset_24h_or_more", "edge_minute_60", "edge_compact_offset_minutes_60_99"][(c.kind % 5) as usize]);
+    st.nontrivial(&text);
+    match rinkx::eval_line(&env.ctx, &text) {
+        Out::Panic(p) => fail(env, st, &panic_signature(&p), &text, format!("panicked: {}", p)),
+        Out::Error(_) => {
+            st.class("edge_refused");
+            Ok(())
+        }
+        out => match date_of(out) {
+            Ok((ns, _, _, shown)) => {
+                if accepted.contains(&ns) {
+                    st.class("edge_read_as_written");
+                    Ok(())
+                } else {
+                    fail(
+                        env,
+                        st,
+                        "literal-fields-silently-dropped",
+                        &text,
+                        format!("read as {} ({} ns since the epoch); what is written means {:?} ns (or should be refused)", shown, ns, accepted),
+                    )
+                }
+            }
+            Err(e) => fail(env, st, "literal-edge-other-reply", &text, e),
+        },
+    }
+}
+
 pub fn run(cx: &Cx) -> Report {
     let mut rep = Report::new(RULE);
     rep.assumptions = vec![
         "`now` is pinned; a literal without an offset is read as UTC (what the reply's rfc3339 shows)".into(),
         "named zones have no independent oracle here: for zoned literals the wall-clock fields must be the ones written, and re-zoning must keep the instant".into(),
         "results outside years 1..9999 are checked for totality only".into(),
-        "a literal whose own offset is out of range is outside the statement's refusal clause (which is about conversions)".into(),
+        "a literal whose own fields are out of range (offset of 24 h or more, minute 60) may be refused or read as written, but must not be read as something else (phase literal-edges)".into(),
     ];
     let known = cx.known.clone();
     crate::regress::run(cx, &mut rep, &replay);
@@ -576,11 +685,26 @@ pub fn run(cx: &Cx) -> Report {
         |c| serde_json::to_value(c).unwrap(),
     ));
     rep.mark(cx, "random");
+    let k = known.clone();
+    rep.absorb(par_proptest(
+        cx,
+        "literal-edges",
+        cx.tier.pick(20_000, 400_000),
+        edge_strategy,
+        move || mk_env(k.clone()),
+        |env, c, st| check_edge(env, c, st),
+        |c| json!({"edge": c}),
+    ));
+    rep.mark(cx, "literal-edges");
     rep
 }
 
 pub fn replay(cx: &Cx, _phase: &str, case: &J, st: &mut Stats) -> CaseResult {
     let env = mk_env(cx.known.clone());
+    if case.get("edge").is_some() {
+        let c: EdgeLit = serde_json::from_value(case["edge"].clone()).map_err(|e| format!("bad case: {}", e))?;
+        return check_edge(&env, &c, st);
+    }
     let c: Case = serde_json::from_value(case.clone()).map_err(|e| format!("bad case: {}", e))?;
     check(&env, &c, st)
 }
